@@ -533,8 +533,12 @@ class SymReal:
             return NotImplemented
         if self.t.op == "const":
             return b ** self.t.args[0]
-        if b.t.op == "const" and b.t.args[0] == -1 and self.t.sort == "I":
-            return SymReal(T.ite(T.eq(T.imod(self.t, T.const(2, "I")), T.IZERO), T.IONE, T.const(-1, "I")))
+        if b.t.op == "const" and b.t.args[0] == -1:
+            # (-1) ** n for an integer-valued exponent
+            e = self.t if self.t.sort == "I" else T.floor(self.t)
+            if self.t.sort != "I":
+                CTX.need("integer_exponent", T.eq(T.to_real(e), self.t))
+            return SymReal(T.ite(T.eq(T.imod(e, T.const(2, "I")), T.IZERO), T.IONE, T.const(-1, "I")))
         return (self * b.log()).exp()
 
     def __abs__(self):
